@@ -3,11 +3,11 @@ import itertools
 from framework import coq_bs, coq_N, coq_z, coq_bool, coq_list, coq_pair
 
 ID = 'C12'
-COQ_IMPORTS = ['C12_Model']
+COQ_IMPORTS = ['C13_Rx', 'C12_Model', 'C12_Rx']     # C13_Rx first: the C12 names shadow C13's (rfany, ...); C13_Rx gives the regex trees
 MODELLED_FUNCS = {'sugar/core/cane.py': ['find_orfs', '_frame_start', '_inds2orf', 'match'],
                   'sugar/core/seq.py': ['BioSeq.find_orfs', 'BioSeq.matchall', 'BioSeq.match', 'BioBasket.find_orfs']}
 GENERATORS = ['gen_codes']          # C12_Model uses the C05 model of BioSeq.rc, which reads the regenerated COMPLEMENT tables
-RULE = ('round 7 x-tail grid (about 750 cases: gap in {_, ~, N, ._, ., -., None}; the last in-frame codon followed by 1/2/9 columns of gap characters of the set or of stray symbols of another set, both strands, modes); round 7 x-stream (700 quick / 6 000 thorough, through run_C12x): gap in {-, ., .-, -., _, ~, *, N, ._, -_, _.-, -~, None} on texts with gap '
+RULE = ('round 7 regex stream (500 quick / 4 000 thorough, through run_C12rx): start / stop given as regex trees (AUG|ATG, A[TU]G, (ATG), AT+G, A[^A]G, A[U]?G, word alternations, random trees of depth 2 x the stop alternation, T(?:AA|AG|GA), [T]AA?, T[AG][AG], T.A, words, random trees), gap in {-, ., .-, -., ~, -~, .~, None, _ (outside)}, DNA and RNA texts up to 45 columns with gap columns and strays, every rf form incl. repeated / out-of-range frames, all modes; round 7 x-tail grid (about 750 cases: gap in {_, ~, N, ._, ., -., None}; the last in-frame codon followed by 1/2/9 columns of gap characters of the set or of stray symbols of another set, both strands, modes); round 7 x-stream (700 quick / 6 000 thorough, through run_C12x): gap in {-, ., .-, -., _, ~, *, N, ._, -_, _.-, -~, None} on texts with gap '
         'columns of the chosen set and stray symbols of the others, start in {start, ATG, ATG|GTG|TTG, ATG|CTG, AUG|ATG, GTG, ATG|ATA, stop, '
         'ATGG|AT, TG|ATG} x stop in {stop, TAA, TAA|TAG, TGA, TAG|TGA|TAA, UAA|TAA, TAA|AAT, start, TAAA|TA}, rf names / ints / tuples / lists / '
         'frames outside -3..2 (alone and mixed) / one numpy integer / float / None / other strings / repeated frames, all modes and minlen; '
@@ -274,8 +274,66 @@ def _gen_x_stream(rng, n):
     return out
 
 
+def _gen_rx_stream(rng, n):
+    """start= / stop= as regular expressions (regex trees of the C13 layer: classes, negated classes, groups, ?, +, *, wildcards,
+    nested alternations) x gap options x every rf form x modes; texts up to 45 columns with gap columns and strays"""
+    from props import c13
+    stop_alias = c13._words_rx(['UAG', 'UAA', 'UGA', 'TAG', 'TAA', 'TGA'])
+    starts = [c13.RX_ALIAS['start'], c13.RX_FIXED[0], c13.RX_FIXED[1], c13.RX_FIXED[2], c13.RX_FIXED[5], c13.RX_FIXED[7],
+              c13._words_rx(['ATG', 'GTG', 'TTG']), c13._words_rx(['ATG'])]
+    stops = [stop_alias, c13.RX_FIXED[3], c13.RX_FIXED[6], c13._words_rx(['TAA', 'TAG']), c13._words_rx(['TGA']),
+             ['cat', ['chr', 'T'], ['cat', ['cls', False, 'AG'], ['cls', False, 'AG']]], ['cat', ['chr', 'T'], ['cat', ['dot'], ['chr', 'A']]]]
+    out = []
+    for _ in range(n):
+        gap = rng.choice(['-', '-', '-', '.', '.-', '-.', '~', '-~', '.~', None, None, '_'])
+        L = rng.choice([3, 6, 9, 12, 15, 20, 30, 45])
+        toks = []
+        while sum(map(len, toks)) < L:
+            x = rng.random()
+            toks.append(rng.choice('ACGT') if x < 0.35 else rng.choice(['ATG', 'GTG', 'ATTG', 'AGG', 'ACG']) if x < 0.6 else
+                        rng.choice(['TAA', 'TAG', 'TGA', 'TA', 'TCA']) if x < 0.8 else rng.choice(['CAT', 'CAC', 'TTA', 'CTA', 'TCA', 'CCT']))
+        s = ''.join(toks)
+        if rng.random() < 0.3:
+            s = s.replace('T', 'U')
+        if rng.random() < 0.7:
+            pool = (list(gap) * 4 if gap else []) + list('-.~')
+            tt = list(s)
+            for _k in range(rng.randint(1, 1 + len(tt) // 3)):
+                tt.insert(rng.randrange(len(tt) + 1), rng.choice(pool) * rng.choice([1, 1, 2]))
+            s = ''.join(tt)
+        x = rng.random()
+        tup = False
+        if x < 0.4:
+            rf = rng.choice(['fwd', 'bwd', 'both', 'both'])
+        elif x < 0.55:
+            rf = rng.choice([0, 1, 2, -1, -2, -3])
+        elif x < 0.8:
+            fr = [0, 1, 2, -1, -2, -3]
+            rng.shuffle(fr)
+            rf, tup = fr[:rng.randint(1, 6)], rng.random() < 0.6
+        elif x < 0.88:
+            fr = rng.sample([0, 1, 2, -1, -2, -3], 2)
+            rf, tup = fr + [fr[0]], True
+        elif x < 0.93:
+            rf, tup = [rng.choice([3, -4, 5]), rng.choice([0, -1])], True
+        else:
+            rf = rng.choice([{'np': 0}, None, 'forward', {'float': 1.0}])
+        cfg = (dict(need_start='always', need_stop=True, minlen=0) if rng.random() < 0.4 else
+               dict(need_start=rng.choice(['always', 'once', 'never']), need_stop=rng.random() < 0.5, minlen=rng.choice([0, 0, 3, 6])))
+        c = _mk(s, rf=rf, rf_tuple=tup, gap=gap, **cfg)
+        c['x'] = True
+        y = rng.random()
+        c['rxs'] = rng.choice(starts) if y < 0.75 else c13.gen_rx_alt(rng, 'ACGT', 2, False)
+        y = rng.random()
+        c['rxp'] = rng.choice(stops) if y < 0.75 else c13.gen_rx_alt(rng, 'ACGT', 2, False)
+        c['start'], c['stop'] = c13.rx_show(c['rxs']), c13.rx_show(c['rxp'])
+        out.append(c)
+    return out
+
+
 def gen_cases(rng, tier):
     cases = []
+    cases += _gen_rx_stream(rng, 4000 if tier == 'thorough' else 500)
     cases += _gen_x_stream(rng, 6000 if tier == 'thorough' else 700)
     cases += _gen_xtail_grid(rng)
     # hand-picked: every start/stop codon alone, in frame, on both strands, with gaps
@@ -786,6 +844,13 @@ def _rfany_term(case):
 
 
 def _one_model_term(case):
+    if 'rxs' in case:
+        from props import c13
+        g = case.get('gap', '-')
+        return 'out (run_C12rx %s %s %s %s %s %s %s %s)' % (
+            'None' if g is None else '(Some %s)' % coq_bs(g), c13.rx_term(case['rxs']), c13.rx_term(case['rxp']),
+            _rfany_term(case), coq_N(NS.get(case['need_start'], 0)), coq_bool(bool(case['need_stop'])),
+            coq_z(int(case['minlen'])), coq_bs(case['s']))
     if _is_x(case):
         g = case.get('gap', '-')
         return 'out (run_C12x %s %s %s %s %s %s %s %s)' % (
@@ -797,6 +862,9 @@ def _one_model_term(case):
 
 
 def _one_split_model(case, m):
+    if 'rxs' in case and isinstance(m, list) and len(m) == 4:
+        # [wf, text of the start tree, text of the stop tree, result]: the texts must be the patterns that sugar was given
+        m = [bool(m[0]) and m[1] == case['start'] and m[2] == case['stop'], m[3]]
     ok = isinstance(m, list) and len(m) == 2
     if not ok:
         return False, [False, m]
@@ -817,6 +885,8 @@ def _one_agree(case, implval, modelval):
     wf, mv = modelval
     if wf:
         return implval == mv
+    if 'rxs' in case:
+        return True                              # a tree outside the regex domain (literal metacharacter, nullable): nothing is claimed
     return _is_exc(implval) == _is_exc(mv)       # outside the domain only raises / does not raise is compared
 
 
@@ -995,7 +1065,9 @@ def _one_histkey(case, got):
                   'int' if isinstance(rf, int) else 'tuple' if case.get('rf_tuple') else 'list'),
          'gaps' if '-' in _norm_s(case) else 'gapfree', 'minlen>0' if case['minlen'] else 'minlen=0', 'gap=' + str(case.get('gap', '-'))] + (
         ['lower-case via ' + str(case.get('via'))] if case['s'] != case['s'].upper() else []) + (['warnings=error'] if case.get('werr') else [])
-    if 'start' in case or 'stop' in case:
+    if 'rxs' in case:
+        k.append('regex start/stop (tree)')
+    elif 'start' in case or 'stop' in case:
         k.append('custom codon set')
     if isinstance(rf, list) and any(not -3 <= f <= 2 for f in rf if isinstance(f, int)) or isinstance(rf, int) and not -3 <= rf <= 2:
         k.append('frame outside -3..2')
@@ -1371,7 +1443,7 @@ def python_snippet(case):
     return ("import sys; sys.path.insert(0, '/verif/tools'); from props import c12; "
             "print(c12._hist_impl(%r))" % (case,))
 
-LEVEL_TEXT = ('Machine-checked Coq theorems (38, all closed under the global context) about a line-by-line Gallina model of find_orfs, '
+LEVEL_TEXT = ('Machine-checked Coq theorems (39, all closed under the global context) about a line-by-line Gallina model of find_orfs, '
               '_frame_start, _inds2orf, the codon locator of match(), BioSeq/BioBasket.find_orfs and the len_* filters. Every clause of the '
               'property text is a theorem about the model: '
               '(1) every mode, every sequence, rf, minlen, no hypothesis: the fuelled pairing loop terminates within |starts|+|stops|+1 '
@@ -1406,7 +1478,10 @@ LEVEL_TEXT = ('Machine-checked Coq theorems (38, all closed under the global con
               'sequence, respect minlen and identify a requested frame (C12_custom_invariants), the default pairing lists exactly the '
               '(a, e) with is_orf_x, once, in order (C12_custom_is_orf); on gap-free input the custom codon lists are exactly the in-frame occurrences when the three-letter '
               'words cannot overlap one another (C12_custom_codons_complete) and not otherwise (C12_custom_overlap_refuted: ATG|GTG|TTG, an '
-              'in-frame GTG hidden behind an out-of-frame ATG by the non-overlapping finditer). The default-settings clause against the declarative predicate '
+              'in-frame GTG hidden behind an out-of-frame ATG by the non-overlapping finditer). ARBITRARY regular expressions as start/stop (model/C12_Rx.v on top of the regex-tree layer '
+              'of C13: trees, gapify incl. the character-class unit of 7e33c72, backtracking matcher): for every tree, gap option, rf form '
+              '(repeated and out-of-range frames too) and mode, without hypothesis, the call raises the documented class or returns ORFs '
+              'inside the sequence that respect minlen and identify a requested frame (C12_rx_invariants). The default-settings clause against the declarative predicate '
               'is_orf(text, frame, a, e), both strands, any frame list: sound, complete, no duplicates, increasing order '
               '(C12_default_is_orf) with residue offset = frame and residue count divisible by three (C12_is_orf_residues). Every rf form: '
               'names, ints, tuples, one numpy integer / float / None (TypeError), another string (AssertionError), and tuples with REPEATED '
@@ -1422,7 +1497,9 @@ LEVEL_NOTE = ('Trusted: Coq kernel/vm_compute, the correspondence harness, CPyth
               'than verified: find_orfs, _frame_start, _inds2orf, match() with the default start/stop patterns and gap="-", the '
               'BioSeq/BioBasket.find_orfs glue and FeatureList.filter(len_<op>) by its meaning (the tie to /repo is the differential '
               'correspondence, i.e. testing). Custom start/stop patterns are modelled as alternations of literal words '
-              '(regex classes / wildcards in custom patterns are not modelled; with custom words that can overlap one another '
+              '(run_C12x, exact specification proved) and as regex trees of C13_Rx (run_C12rx: classes, groups, quantifiers, wildcards; '
+              'only the invariants are proved for them, the exact result is compared with sugar on every case; trees must be rx_ok and '
+              'not nullable, gap strings over "-.~"); with custom words that can overlap one another '
               're.finditer hides in-frame codons behind out-of-frame ones - the model reproduces it, the codon-scan oracle is applied '
               'to non-overlapping three-letter sets only; custom sets are outside the property text). Gap strings: non-empty, over '
               '".-_~*N", "-" first or last (no regex range); gap="" (sugar builds the class "[]*...") is outside the domain. Tested only: the call forms (positional / keyword), numpy and float '
